@@ -50,6 +50,7 @@ GnuEv(e) == IF e.raised \/ ~e.fingerprint_ok \/ ~e.export_same THEN "C06.foreign
 \* component refuses; protecting the key does not destroy a secret it cannot read
 MixedEv(e) == IF e.op \in {"sign", "decrypt"} /\ e.outcome # "refused" THEN "C06.refuse-locked"
               ELSE IF e.op = "protect" /\ e.outcome = "secret-lost" THEN "C06.recover"
+              ELSE IF e.op = "protect-fails" /\ e.outcome # "unchanged" THEN "C06.failed-protect"
               ELSE "ok"
 Judge(e) == CASE e.k = "mixed" -> MixedEv(e) [] e.k = "recover" -> RecoverEv(e) [] e.k = "foreign-secret" -> ForeignEv(e) [] e.k = "gnu-dummy" -> GnuEv(e) [] OTHER -> "harness.unknown-event"
 Init == i = 1
